@@ -3,7 +3,10 @@
  * objects (pre-computed ISAP keys, masked keys, input buffers, key/nonce bytes).
  * Oracles: (a) the race detector the binary runs under (TSan build, or helgrind/DRD on the
  * -O3 build so that assembly accesses are seen); (b) every per-thread result must equal
- * the result of the same operation list executed sequentially before the threads start.
+ * the result of the same operation list executed sequentially AFTER the threads have been joined (so the first use of
+ * anything the library initialises lazily happens inside the threads: "cold start").
+ * --arg cold:<kind>: 8 threads whose first three operations all have that kind - one process per kind, so that every
+ * entry point is hit by several threads at once as the very first thing the process does with it.
  * --arg canary: two threads race on an unsynchronised counter; the detector must report it.
  */
 #include "common.h"
@@ -26,7 +29,7 @@
 
 #define MAXT 16
 #define NOPS 40
-#define NKINDS 23
+#define NKINDS 24
 #define OUTSZ 96
 
 /* shared, read-only after set-up */
@@ -35,15 +38,15 @@ static ascon128a_isap_aead_key_t sh_isap128a;
 static ascon80pq_isap_aead_key_t sh_isap80pq;
 static ascon_masked_key_128_t sh_mk128;
 static ascon_masked_key_160_t sh_mk160;
-static uint8_t sh_key[20], sh_nonce[16], sh_in[512];
+static uint8_t sh_key[20], sh_nonce[16], sh_in[512], sh_longkey[160];
 
 typedef struct { uint8_t kind; uint16_t mlen, adlen; uint8_t off; } op_t;
 static op_t plan[MAXT][NOPS];
-static uint8_t expect[MAXT][NOPS][OUTSZ];
+static uint8_t expect[MAXT][NOPS][OUTSZ], got[MAXT][NOPS][OUTSZ];
 static int nthreads = 8;
 static pthread_barrier_t bar;
 static int inlib = 0, max_overlap = 0;
-static long mismatches = 0;
+
 static uint64_t yield_seed;
 
 static void do_op(const op_t *o, uint8_t out[OUTSZ], int tid)
@@ -99,6 +102,14 @@ static void do_op(const op_t *o, uint8_t out[OUTSZ], int tid)
         ascon_kmac(sh_key, 16, m, mlen, ad, adlen, buf + 128, ol2); ascon_prf_fixed(buf + 192, ol, m, mlen, sh_key);
         ascon_kdf(buf + 256, ol, sh_key, 20, ad, adlen);
         clen = 256 + ol; break; }
+    case 22: { /* keys / salts / passwords longer than the 64-byte HMAC block (hashed down first) */
+        size_t kl = 65 + (mlen % 90);
+        memset(buf, 0, 200);
+        ascon_hmac(buf, sh_longkey, kl, m, mlen); ascon_hmaca(buf + 32, sh_longkey, kl + 1, ad, adlen);
+        ascon_hkdf(buf + 64, 40, sh_key, 20, sh_longkey, kl, ad, adlen); ascon_hkdfa(buf + 104, 33, sh_longkey, kl, sh_longkey + 3, 70, 0, 0);
+        ascon_pbkdf2_hmac(buf + 140, 20, sh_longkey, kl, ad, adlen, 2);
+        {   ascon_hmac_state_t hs; ascon_hmac_init(&hs, sh_longkey, kl); ascon_hmac_update(&hs, m, mlen); ascon_hmac_finalize(&hs, sh_longkey, kl, buf + 160); ascon_hmac_free(&hs); }
+        clen = 192; break; }
     case 20: { /* key extraction from the shared masked keys must keep returning the key */
         ascon_masked_key_128_extract(&sh_mk128, buf); ascon_masked_key_160_extract(&sh_mk160, buf + 16); clen = 36; break; }
     default: { /* the global PRNG and a per-thread PRNG object: output is random, only the call is exercised */
@@ -122,7 +133,7 @@ static void *worker(void *arg)
         while (now > mx && !__atomic_compare_exchange_n(&max_overlap, &mx, now, 0, __ATOMIC_RELAXED, __ATOMIC_RELAXED)) ;
         do_op(&plan[tid][i], out, tid);
         __atomic_sub_fetch(&inlib, 1, __ATOMIC_RELAXED);
-        if (memcmp(out, expect[tid][i], OUTSZ) != 0) __atomic_add_fetch(&mismatches, 1, __ATOMIC_RELAXED), __atomic_store_n(&plan[tid][i].off, 255, __ATOMIC_RELAXED);
+        memcpy(got[tid][i], out, OUTSZ);
         if ((vf_splitmix(&ys) & 3) == 0) sched_yield();
     }
     return 0;
@@ -137,6 +148,7 @@ int main(int argc, char **argv)
     vf_args_t a;
     rng_t r;
     long rounds;
+    int coldkind = -1;
     vf_prop = "C16";
     vf_parse_args(argc, argv, &a);
     if (a.arg && !strcmp(a.arg, "canary")) {
@@ -147,7 +159,8 @@ int main(int argc, char **argv)
         vf_finish();
         return 0;
     }
-    if (a.arg && atoi(a.arg) >= 2 && atoi(a.arg) <= MAXT) nthreads = atoi(a.arg);
+    if (a.arg && !strncmp(a.arg, "cold:", 5)) { coldkind = atoi(a.arg + 5) % NKINDS; nthreads = 8; }
+    else if (a.arg && atoi(a.arg) >= 2 && atoi(a.arg) <= MAXT) nthreads = atoi(a.arg);
     rounds = a.cases > 0 ? a.cases : 200;
     rng_seed(&r, a.seed ^ 0x16, a.shard);
     for (long round = 0; round < rounds; ++round) {
@@ -157,15 +170,15 @@ int main(int argc, char **argv)
         vf_case_begin(idx);
         vf_progress("case=%llu mt round threads=%d", (unsigned long long)idx, T);
         /* shared objects for this round */
-        rng_bytes(&r, sh_key, 20); rng_bytes(&r, sh_nonce, 16); rng_bytes(&r, sh_in, sizeof(sh_in));
+        rng_bytes(&r, sh_key, 20); rng_bytes(&r, sh_nonce, 16); rng_bytes(&r, sh_in, sizeof(sh_in)); rng_bytes(&r, sh_longkey, sizeof(sh_longkey));
         ascon128_isap_aead_init(&sh_isap128, sh_key); ascon128a_isap_aead_init(&sh_isap128a, sh_key); ascon80pq_isap_aead_init(&sh_isap80pq, sh_key);
         ascon_masked_key_128_init(&sh_mk128, sh_key); ascon_masked_key_160_init(&sh_mk160, sh_key);
         for (int t = 0; t < T; ++t)
             for (int i = 0; i < NOPS; ++i) {
                 op_t *o = &plan[t][i];
                 o->kind = (uint8_t)rng_below(&r, NKINDS); o->mlen = (uint16_t)pick_len(&r, 8, 180); o->adlen = (uint16_t)pick_len(&r, 8, 60); o->off = (uint8_t)rng_below(&r, 20);
+                if (coldkind >= 0 && round == 0 && i < 3) o->kind = (uint8_t)coldkind;
                 if (((o->kind >= 3 && o->kind <= 5) || (o->kind >= 17 && o->kind <= 19)) && o->mlen > 64) o->mlen = 64;
-                do_op(o, expect[t][i], t);       /* sequential result */
             }
         yield_seed = rng_u64(&r);
         pthread_barrier_init(&bar, 0, (unsigned)T);
@@ -173,16 +186,19 @@ int main(int argc, char **argv)
         for (int t = 0; t < T; ++t) pthread_join(th[t], 0);
         pthread_barrier_destroy(&bar);
         for (int t = 0; t < T; ++t)
-            for (int i = 0; i < NOPS; ++i)
-                if (plan[t][i].off == 255 && plan[t][i].kind != NKINDS - 1) {
+            for (int i = 0; i < NOPS; ++i) {
+                do_op(&plan[t][i], expect[t][i], t);       /* sequential result, after the concurrent phase */
+                if (memcmp(got[t][i], expect[t][i], OUTSZ) != 0 && plan[t][i].kind != NKINDS - 1) {
                     char key[64];
                     snprintf(key, sizeof(key), "mt:result-differs-from-sequential:kind%d", plan[t][i].kind);
-                    vf_violation("C16", key, "\"threads\":%d,\"thread\":%d,\"op\":%d,\"mlen\":%u,\"adlen\":%u", T, t, i, plan[t][i].mlen, plan[t][i].adlen);
+                    vf_violation("C16", key, "\"threads\":%d,\"thread\":%d,\"op\":%d,\"mlen\":%u,\"adlen\":%u,\"cold_kind\":%d", T, t, i, plan[t][i].mlen, plan[t][i].adlen, coldkind);
                 }
+            }
         ascon128_isap_aead_free(&sh_isap128); ascon128a_isap_aead_free(&sh_isap128a); ascon80pq_isap_aead_free(&sh_isap80pq);
         ascon_masked_key_128_free(&sh_mk128); ascon_masked_key_160_free(&sh_mk160);
         vf_count("cases", 1); vf_count("thread_operations", (long)T * NOPS);
         vf_distinct("mt|threads%d|round%ld", T, round % 50);
+        if (coldkind >= 0 && round == 0) { vf_distinct("mt|cold-start|kind%d", coldkind); vf_count("cold_start_processes", 1); }
         vf_case_end();
     }
     vf_max("max_threads_inside_library_at_once", max_overlap);
